@@ -179,6 +179,25 @@ func (c *Ctx) visitsOwnEntry(mr mapRange) bool {
 	if k := strings.LastIndex(suffix, "."); k >= 0 {
 		suffix = suffix[k:]
 	}
+	// the ranged map may be an element of a literal list of tables (for _, tbl := range []map…{ms.A, ms.B} { for … range tbl }):
+	// then the condition must hold for each listed table
+	if elems := literalListElems(mr.rng.X); len(elems) > 0 {
+		all := true
+		for _, e := range elems {
+			sfx := AccessPath(e)
+			if k := strings.LastIndex(sfx, "."); k >= 0 {
+				sfx = sfx[k:]
+			} else {
+				all = false
+			}
+			if !c.cacheWarmAt(mr.fn, mr.rng.Block(), sfx, func(b *ssa.BasicBlock) bool { return mr.inBody(b) }) {
+				all = false
+			}
+		}
+		if all {
+			return true
+		}
+	}
 	if c.cacheWarmAt(mr.fn, mr.rng.Block(), suffix, func(b *ssa.BasicBlock) bool { return mr.inBody(b) }) {
 		return true
 	}
@@ -1025,4 +1044,38 @@ func (c *Ctx) sortKeyWeak(app *ssa.Call, mr mapRange) string {
 		}
 	}
 	return weak
+}
+
+// literalListElems: v is an element read from a slice/array literal built in the same function (the loop variable of a
+// range over []T{a, b, …}); returns the values stored into the literal.
+func literalListElems(v ssa.Value) []ssa.Value {
+	u, ok := v.(*ssa.UnOp)
+	if !ok || u.Op != token.MUL {
+		return nil
+	}
+	ia, ok := u.X.(*ssa.IndexAddr)
+	if !ok {
+		return nil
+	}
+	var arr *ssa.Alloc
+	switch x := ia.X.(type) {
+	case *ssa.Slice:
+		arr, _ = x.X.(*ssa.Alloc)
+	case *ssa.Alloc:
+		arr = x
+	}
+	if arr == nil {
+		return nil
+	}
+	var out []ssa.Value
+	for _, r := range *arr.Referrers() {
+		if ea, isIA := r.(*ssa.IndexAddr); isIA && ea != ia {
+			for _, rr := range *ea.Referrers() {
+				if st, isS := rr.(*ssa.Store); isS && st.Addr == ssa.Value(ea) {
+					out = append(out, st.Val)
+				}
+			}
+		}
+	}
+	return out
 }
